@@ -93,7 +93,16 @@ func f64node(f float64) node {
 func timeNode(t time.Time) node {
 	_, off := t.Zone()
 	b := append(le64(uint64(t.Unix())), le32(uint32(t.Nanosecond()))...)
-	return node{"k": "time", "b": b, "off": off, "zero": t.IsZero()}
+	unix := t.Unix()
+	days := unix / 86400
+	if unix%86400 < 0 {
+		days--
+	}
+	y, mo, d := t.Date()
+	h, mi, s := t.Clock()
+	return node{"k": "time", "b": b, "off": off, "zero": t.IsZero(),
+		"y": y, "mo": int(mo), "d": d, "h": h, "mi": mi, "s": s, "ns": t.Nanosecond(),
+		"days": int(days), "sod": int(unix - days*86400)}
 }
 
 // projectValue turns a Go value into a value node.
